@@ -146,6 +146,59 @@ pub fn plan_attacker(w: &World, knobs: &Knobs, actor: &mut Actor, l: &Ledger) ->
             }
         }
     }
+    // liquidity amounts at the integer limits, through the attacker's own position: a withdrawal of 2^128 - x (which a
+    // careless sign conversion reads as a deposit of x), a deposit at or above 2^127, and deposits whose exact token cost
+    // sits just above 2^64 or 2^128 (which a truncating conversion reads as a small number). All must be refused.
+    if rng.chance(1, 8) {
+        if let Some(pool) = l.data(&p.whirlpool).and_then(decode::pool) {
+            let x = 1 + rng.below(1_000_000) as u128;
+            let (pl, pu) = (crate::model::sqrt_price_of_tick(p.lower), crate::model::sqrt_price_of_tick(p.upper));
+            let t = pool.tick_current_index;
+            let pr = pool.sqrt_price.clamp(pl, pu);
+            // per-unit cost n/d of token A (if any) and token B (if any) at the current price
+            let mut wraps: Vec<u128> = Vec::new();
+            let two64 = crate::model::two64();
+            let mut sides: Vec<(num_bigint::BigUint, num_bigint::BigUint)> = Vec::new();
+            if t < p.upper {
+                let bot = if t < p.lower { pl } else { pr };
+                if pu > bot {
+                    sides.push((&two64 * crate::model::bu(pu - bot), crate::model::bu(pu) * crate::model::bu(bot)));
+                }
+            }
+            if t >= p.lower {
+                let top = if t < p.upper { pr } else { pu };
+                if top > pl {
+                    sides.push((crate::model::bu(top - pl), two64.clone()));
+                }
+            }
+            for (n, d) in sides {
+                for k in [crate::model::bu(u64::MAX as u128), crate::model::bu(u128::MAX)] {
+                    let lw = (k * &d) / &n + num_bigint::BigUint::from(1u8) + (&d / &n) * num_bigint::BigUint::from(x as u64);
+                    if let Some(v) = crate::model::to_u128(&lw) {
+                        wraps.push(v);
+                    }
+                }
+            }
+            let pick = rng.below(4);
+            let (i, n): (Ix, &str) = match pick {
+                0 if v1_ok => (ix::decrease_liquidity(&la, u128::MAX - x + 1, 0, 0), "decrease_liquidity of 2^128 - x"),
+                0 | 1 => (ix::decrease_liquidity_v2(&la, u128::MAX - x + 1, 0, 0), "decrease_liquidity_v2 of 2^128 - x"),
+                2 => (ix::increase_liquidity_v2(&la, (1u128 << 127) + x - 1, u64::MAX, u64::MAX), "increase_liquidity_v2 of 2^127 + x"),
+                _ if !wraps.is_empty() => {
+                    let lw = wraps[rng.idx(wraps.len())];
+                    if v1_ok && rng.chance(1, 2) {
+                        (ix::increase_liquidity(&la, lw, u64::MAX, u64::MAX), "increase_liquidity with a cost just above 2^64 / 2^128")
+                    } else {
+                        (ix::increase_liquidity_v2(&la, lw, u64::MAX, u64::MAX), "increase_liquidity_v2 with a cost just above 2^64 / 2^128")
+                    }
+                }
+                _ => (ix::decrease_liquidity_v2(&la, u128::MAX - x + 1, 0, 0), "decrease_liquidity_v2 of 2^128 - x"),
+            };
+            flow.push((tx1(i), format!("attacker: {}", n)));
+            actor.rng = rng.clone();
+            return flow;
+        }
+    }
     // rewards: collect index i out of the vault that is registered for index j (same mint)
     if rng.chance(1, 4) {
         if let Some(pool) = l.data(&p.whirlpool).and_then(decode::pool) {
